@@ -428,12 +428,16 @@ def make_out(ch, c, space, x, res, noout_impl):
         return l, np.zeros(res.shape, dtype=res.dtype).tolist()
     if ch == 'a':
         return np.full(res.shape, 7, dtype=res.dtype), np.full(res.shape, 7, dtype=res.dtype)
+    if ch == 'F':  # plain ndarray of a WIDER dtype than the result (with dtype=: the glue
+        #            computes into a converted temporary that must be written back)
+        dt = wider_dtype(res.dtype)
+        return np.full(res.shape, 7, dtype=dt), np.full(res.shape, 7, dtype=dt)
     if ch == 'x':
         return x, plain(x)
     if res.shape == ():
         raise SkipCase('0-d result has no element out')
-    if ch == 'f':  # element of a float64/complex space although the result may be narrower
-        dt = np.result_type(res.dtype, np.float64)
+    if ch == 'f':  # element of a wider (float64/complex) space than the result
+        dt = wider_dtype(res.dtype)
         o = odl.tensor_space(res.shape, dtype=dt).element(np.full(res.shape, 7, dtype=dt))
         return o, np.full(res.shape, 7, dtype=dt)
     if c.kind == 'tensor' or ch == 't':
@@ -457,6 +461,14 @@ def make_out(ch, c, space, x, res, noout_impl):
         return sp.element(np.full(res.shape, 7, dtype=res.dtype)), \
             np.full(res.shape, 7, dtype=res.dtype)
     raise KeyError(ch)
+
+
+def wider_dtype(dt):
+    """A dtype the result can be cast to (same_kind) but that differs from it."""
+    dt = np.dtype(dt)
+    if dt == np.dtype('float64') or dt.kind == 'c':
+        return np.dtype('complex128')
+    return np.result_type(dt, np.float64)
 
 
 class SkipCase(Exception):
@@ -508,7 +520,7 @@ def run_case(c, space):
     # ---- out objects
     outs_odl = outs_np = None
     if c.out != 'n':
-        if len(c.out) != (nout if method == '__call__' else 1) and set(c.out) <= set('Nwaetxf'):
+        if len(c.out) != (nout if method == '__call__' else 1) and set(c.out) <= set('NwaetxfF'):
             pass  # malformed arity on purpose: NumPy itself rejects these
         if np0[0] != 'ok' or method == 'at':
             raise SkipCase('no result to size out with')
@@ -897,10 +909,16 @@ def enumerate_cases(ctx, thorough, zoo, variant=None):
                         if u.nout == 1 and dt != 'float32':
                             yield Case('ufunc', skey, kind, uname, u, '__call__', ops, 'e',
                                        {'dtype': dt}, variant)
-                        if u.nout == 1 and dt == 'float32' and kind != 'power':
-                            # out of a wider dtype: written through writable_array's temporary
-                            yield Case('ufunc', skey, kind, uname, u, '__call__', ops, 'f',
-                                       {'dtype': dt}, variant)
+                        if u.nout == 1 and dt in ('float32', 'float64') and kind != 'power':
+                            # out of a WIDER dtype than the computation dtype (element, plain
+                            # ndarray): written through writable_array's converted temporary
+                            for op in ('f', 'F'):
+                                yield Case('ufunc', skey, kind, uname, u, '__call__', ops, op,
+                                           {'dtype': dt}, variant)
+                        if u.nout == 2 and dt == 'float32' and kind != 'power':
+                            for op in ('FF', 'fN', 'NF'):
+                                yield Case('ufunc', skey, kind, uname, u, '__call__', ops, op,
+                                           {'dtype': dt}, variant)
             if u.nin != 2 or u.nout != 1:
                 if uname in ('negative', 'modf', 'sqrt', 'clip'):
                     # NumPy rejects these method calls itself (or `at` for unary ufuncs)
@@ -933,6 +951,10 @@ def enumerate_cases(ctx, thorough, zoo, variant=None):
                     for dt in ('complex128', 'float64'):
                         yield Case('ufunc', skey, kind, uname, u, 'reduce', 'e', 'n',
                                    dict(ax, dtype=dt), variant)
+                    if kind != 'power' and ax in ({}, {'axis': 1}, {'axis': -1}):
+                        for op in ('F', 'f'):   # dtype= differs from the dtype of out
+                            yield Case('ufunc', skey, kind, uname, u, 'reduce', 'e', op,
+                                       dict(ax, dtype='float32'), variant)
             # ---- accumulate
             accs = [{}] + ([{'axis': 1}, {'axis': -1}] if ndim >= 2 else [])
             for ax in accs:
@@ -946,6 +968,10 @@ def enumerate_cases(ctx, thorough, zoo, variant=None):
                 if rich:
                     yield Case('ufunc', skey, kind, uname, u, 'accumulate', 'e', 'n',
                                dict(ax, dtype='complex128'), variant)
+                    if kind != 'power':
+                        for op in ('F', 'f'):   # dtype= differs from the dtype of out
+                            yield Case('ufunc', skey, kind, uname, u, 'accumulate', 'e', op,
+                                       dict(ax, dtype='float32'), variant)
             # ---- outer
             for ops in (['ee', 'eo', 'oe', 'ea', 'ae', 'xx'] if rich else ['ee', 'eo', 'ea']):
                 yield Case('ufunc', skey, kind, uname, u, 'outer', ops, 'n', {}, variant)
